@@ -414,6 +414,17 @@ def adversarial(quick):
                 make_inner(p, t, 'u0', [(pin, k), ('b', I[0])], [(pout, O[0])], lambda tt, II, OO: p.And2(tt, 'g', II[0], II[1], OO[0]), clsname='InnerLook')
             return make_top(p, [(pin, 4)], [(pout, 4)], body)
         A(Case('lookalike[%s,%s]' % (pin, pout), 'adversarial', {'kind': 'lookalike_prefix', 'in': pin, 'out': pout}, b_look))
+    # per-instance modules (classes without structureName) whose INSTANCE PATHS collide when flattened with a separator: lane/a_0 vs lane_a/0,
+    # u_1/x vs u/1_x ... ; the two objects have different interfaces (widths), so each needs a module of its own
+    for (pa, ca), (pb, cb) in ((('lane', 'a_0'), ('lane_a', '0')), (('u', '1_x'), ('u_1', 'x')), (('m', 'm_m'), ('m_m', 'm'))):
+        def b_path(p, pa=pa, ca=ca, pb=pb, cb=cb):
+            def body(t, I, O):
+                def cell(parent, name, i, o):
+                    return make_inner(p, parent, name, [('a', i)], [('r', o)], lambda tt, II, OO: p.Not(tt, 'g', II[0], OO[0]), clsname='Cell')
+                make_inner(p, t, pa, [('a', I[0])], [('r', O[0])], lambda tt, II, OO: cell(tt, ca, II[0], OO[0]), clsname='Lane')
+                make_inner(p, t, pb, [('a', I[1])], [('r', O[1])], lambda tt, II, OO: cell(tt, cb, II[0], OO[0]), clsname='Lane')
+            return make_top(p, [('x', 8), ('y', 4)], [('r', 8), ('s', 4)], body)
+        A(Case('instance_paths[%s/%s,%s/%s]' % (pa, ca, pb, cb), 'adversarial', {'kind': 'instance_path_collision', 'paths': [[pa, ca], [pb, cb]]}, b_path))
     def b_i(p):
         def body(t, I, O):
             a = t.wire('a', 4); p.Add(t, 'x', I[0], I[0], a); p.Add(t, 'i_x', a, I[0], O[0])
